@@ -2,6 +2,7 @@ package main
 
 import (
 	"bytes"
+	"crypto/tls"
 	"fmt"
 	"math/rand"
 	"net"
@@ -24,10 +25,10 @@ func (c07Stream) Name() string               { return "c07" }
 func (c07Stream) CaseTimeout() time.Duration { return 60 * time.Second }
 func (c07Stream) NoModel() bool              { return true }
 func (c07Stream) Rule() string {
-	return "one fault per scenario - a panicking handler for each concurrently dispatched operation (bind, search, modify, add, delete, extended), for StartTLS, for the unbind route and for the default route; a connection reset; a truncated frame followed by silence; a client that sends searches with large results and never reads; descriptor exhaustion at accept (RLIMIT_NOFILE lowered in the worker); 48 connections whose read loops end on a malformed frame while a slow request of theirs is still being handled, with 48 new connections arriving at once; a frame of 2^20 nested indefinite-length sequence headers (goroutine stack limit lowered to 32 MiB in the worker) - injected while two bystander connections issue requests continuously; oracle: the worker process survives, the bystanders keep receiving correct responses during and after the fault, and a new connection is accepted and served afterwards; non-trivial = every scenario, distinct by fault"
+	return "one fault per scenario - a panicking handler for each concurrently dispatched operation (bind, search, modify, add, delete, extended), for StartTLS, for the unbind route and for the default route; a connection reset; a truncated frame followed by silence; a client that sends searches with large results and never reads; descriptor exhaustion at accept (RLIMIT_NOFILE lowered in the worker); 48 connections whose read loops end on a malformed frame while a slow request of theirs is still being handled, with 48 new connections arriving at once; a client of a TLS listener that sends a truncated first record and stalls; a frame of 2^20 nested indefinite-length sequence headers (goroutine stack limit lowered to 32 MiB in the worker) - injected while two bystander connections issue requests continuously; oracle: the worker process survives, the bystanders keep receiving correct responses during and after the fault, and a new connection is accepted and served afterwards; non-trivial = every scenario, distinct by fault"
 }
 
-var c07Faults = []string{"panic-bind", "panic-search", "panic-modify", "panic-add", "panic-delete", "panic-extended", "panic-starttls", "panic-unbind", "panic-default", "rst", "truncated", "notreading", "fdexhaust", "deepnest", "latewriter"}
+var c07Faults = []string{"panic-bind", "panic-search", "panic-modify", "panic-add", "panic-delete", "panic-extended", "panic-starttls", "panic-unbind", "panic-default", "rst", "truncated", "notreading", "fdexhaust", "deepnest", "latewriter", "tlsstall"}
 
 func (c07Stream) Generate(rng *rand.Rand, n int, thorough bool) []Case {
 	var cs []Case
@@ -96,7 +97,14 @@ func (c07Stream) Impl(c Case) string {
 		}
 		answer(w, r)
 	})
-	sut, err := startServer(mux, nil, nil)
+	// the TLS faults run against a TLS listener, with TLS bystanders
+	var srvCfg, cliCfg *tls.Config
+	if fault == "tlsstall" {
+		srvCfg = srvTLS
+		cliCfg = cliTLS.Clone()
+		cliCfg.ServerName = "localhost"
+	}
+	sut, err := startServer(mux, srvCfg, nil)
 	if err != nil {
 		return "harness-error start: " + err.Error()
 	}
@@ -108,7 +116,7 @@ func (c07Stream) Impl(c Case) string {
 	for b := 0; b < 2; b++ {
 		go func(b int) {
 			defer func() { doneBy <- struct{}{} }()
-			cl, err := dialRaw(sut.addr, nil)
+			cl, err := dialRaw(sut.addr, cliCfg)
 			if err != nil {
 				bad.Store("bystander cannot connect: " + err.Error())
 				return
@@ -142,7 +150,7 @@ func (c07Stream) Impl(c Case) string {
 	}
 	time.Sleep(20 * time.Millisecond)
 	// the fault
-	victim, err := dialRaw(sut.addr, nil)
+	victim, err := dialRaw(sut.addr, nil) // (raw TCP also towards a TLS listener: the victim is the one misbehaving)
 	if err != nil {
 		return "harness-error victim connect: " + err.Error()
 	}
@@ -183,6 +191,10 @@ func (c07Stream) Impl(c Case) string {
 			buf = append(buf, nd.Ser()...)
 		}
 		_ = victim.send(buf)
+	case fault == "tlsstall":
+		// the first five bytes of a TLS record announcing 512 more, then nothing: the victim keeps its connection
+		// open (it is closed at the end of the scenario) while a new client must still be accepted and served
+		_ = victim.send([]byte{0x16, 0x03, 0x01, 0x02, 0x00})
 	case fault == "latewriter":
 		// 48 connections each with a slow request in flight when a malformed frame ends their read loop; right
 		// away 48 new connections bind: whatever the late handlers still write must not reach anybody else
@@ -268,7 +280,7 @@ func (c07Stream) Impl(c Case) string {
 	}
 	if verdict == "ok" {
 		// the server still accepts and serves new connections
-		n, err := dialRaw(sut.addr, nil)
+		n, err := dialRaw(sut.addr, cliCfg)
 		if err != nil {
 			verdict = "no new connection accepted after the fault: " + err.Error()
 		} else {
